@@ -372,6 +372,46 @@ def _run_underscore_names(griffe, acc):
                               {"old": S.render_params(old), "new": S.render_params(new), "old_sig": old, "new_sig": new, "underscore": True}, None, size=len(old) + len(new))
 
 
+# signatures reached through inheritance: a public class at the end of a chain of two and three classes whose ancestors are private; the method CPython finds
+# on the public class is the NEAREST definition: changing that one is a breakage of the public class, changing a shadowed one further up is not
+def _run_inherited(griffe, acc):
+    from pathlib import Path as _P
+
+    def mod(sig_root, sig_mid, chain):
+        if chain == 2:
+            src = f"class _B:\n    def f(self, {sig_mid}): ...\nclass C(_B):\n    pass\n"
+        else:
+            src = f"class _A:\n    def f(self, {sig_root}): ...\n    def only_root(self, {sig_root}): ...\nclass _B(_A):\n    def f(self, {sig_mid}): ...\nclass C(_B):\n    pass\n"
+        coll = griffe.ModulesCollection()
+        m = griffe.visit("m", filepath=_P("m.py"), code=src, modules_collection=coll)
+        coll.set_member("m", m)  # (inheritance is resolved through the collection)
+        return m
+
+    changes = [("x, y=0", "x, y", "required"), ("x, y=0", "x", "removed"), ("x, y", "y, x", "moved"), ("x", "x, z", "added-required")]
+    for chain in (2, 3):
+        for old_sig, new_sig, what in changes:
+            for where in ("nearest", "shadowed", "root-only") if chain == 3 else ("nearest",):
+                if where == "nearest":
+                    old, new = mod("x, y=0", old_sig, chain), mod("x, y=0", new_sig, chain)
+                elif where == "shadowed":
+                    old, new = mod(old_sig, "x, y=0", chain), mod(new_sig, "x, y=0", chain)
+                else:
+                    old, new = mod(old_sig, "q", chain), mod(new_sig, "q", chain)  # (only_root is inherited from the far end of the chain: nothing shadows it)
+                brs = [(b.kind.value, b.obj.path) for b in griffe.find_breaking_changes(old, new)]
+                case = {"decorator": None, "inherited": True, "chain": chain, "change": what, "where": where}
+                acc.case(case, outcome="inherited:" + ("reported" if brs else "silent"), nontrivial=True)
+                # (a breakage found through an inherited member is reported at the member's own path inside the private class: the known C11 wrong-path cause; either path counts here)
+                hit_f = [b for b in brs if b[1] in ("m.C.f", "m._B.f")]
+                hit_shadowed = [b for b in brs if b[1] in ("m.C.f", "m._B.f", "m._A.f")]
+                hit_root = [b for b in brs if b[1] in ("m.C.only_root", "m._A.only_root")]
+                if where == "nearest" and not hit_f:
+                    acc.violation(f"inherited/miss/{chain}-classes/{what}", f"chain of {chain}: the definition of f that C inherits changed ({old_sig} -> {new_sig}); nothing is reported at m.C.f ({brs})", case, None, size=chain)
+                if where == "shadowed" and hit_shadowed:
+                    acc.violation(f"inherited/spurious/shadowed/{what}", f"chain of 3: only the SHADOWED _A.f changed; reported {hit_shadowed}", case, None, size=chain)
+                if where in ("shadowed", "root-only") and not hit_root:
+                    acc.violation(f"inherited/miss/far-end/{what}", f"chain of 3: _A.only_root changed ({old_sig} -> {new_sig}), inherited by C unshadowed; nothing reported at m.C.only_root ({brs})", case, None, size=chain)
+
+
 def run_shard(shard, tier):
     griffe, sigs, shapes, masks, mods, mapping = _prepare(tier)
     inv = {v: k for k, v in mapping.items()}
@@ -385,6 +425,8 @@ def run_shard(shard, tier):
         _run_decorated(griffe, acc)
     if shard == 3:
         _run_underscore_names(griffe, acc)
+    if shard == 4:
+        _run_inherited(griffe, acc)
     for i in range(shard, len(sigs), NSHARDS):
         old = sigs[i]
         for j, new in enumerate(sigs):
@@ -429,7 +471,7 @@ def replay(case):
         from mc.core.driver import Acc as _Acc
 
         acc = _Acc()
-        (_run_decorated if "decorator" in case else _run_default_shapes)(griffe, acc)
+        (_run_inherited if case.get("inherited") else _run_underscore_names if "underscore" in case else _run_decorated if "decorator" in case else _run_default_shapes)(griffe, acc)
         return [(k, v["summary"], v["detail"]) for k, v in acc.violations.items()]
     old = tuple(tuple(p) for p in case.get("old_sig", ()))
     new = tuple(tuple(p) for p in case["new_sig"])
